@@ -102,3 +102,79 @@ pub fn require_both_outcomes(run: &Run, sink: &Sink, names: &[&'static str]) {
         }
     }
 }
+
+/// Standard suffix set for deviation sweeps (bytes that themselves look like valid structures).
+pub fn std_suffixes() -> Vec<Vec<u8>> {
+    vec![
+        vec![0x00],
+        vec![0xff, 0xff, 0xff],
+        vec![0x16, 0x03, 0x03, 0x00, 0x04, 0x00, 0x00, 0x00, 0x00],
+        vec![0x00, 0x17, 0x00, 0x00],
+    ]
+}
+
+/// Every encoding of `cat` with every combination of at most `d` deviations, through `targets`.
+/// `extra` is called after the reference comparison with the observed and expected outcome.
+pub fn struct_sweep(
+    run: &Run,
+    targets: &[&Target],
+    cat: &[vcommon::en::W],
+    d: usize,
+    suffixes: &[Vec<u8>],
+    cut_dense: usize,
+    extra: &(dyn Fn(&Target, &[u8], &Got, &Ref, &mut Sink) + Sync),
+) -> Sink {
+    par_run(run.threads, cat.len(), |i, sink| {
+        let w = &cat[i];
+        let mut f = |devs: &[vcommon::en::Dev], b: &[u8]| {
+            for t in targets {
+                let (g, r) = check_case(run.prop, t, b, sink);
+                extra(t, b, &g, &r, sink);
+                if devs.is_empty() {
+                    sink.bump("undeviated encodings", 1);
+                    if i % 37 == 0 {
+                        sink.sample(6, || json!({"func": t.name, "input": hexshort(b), "deviations": 0, "reference": ref_class(&r), "got": g.class()}));
+                    }
+                } else if i % 53 == 1 && devs.len() == 1 {
+                    sink.sample(10, || json!({"func": t.name, "input": hexshort(b), "deviation": format!("{:?}", devs), "reference": ref_class(&r), "got": g.class()}));
+                }
+            }
+        };
+        vcommon::en::deviations(w, d, suffixes, cut_dense, &mut f);
+    })
+}
+
+/// Every string over a positional alphabet up to length n (optionally behind a fixed prefix /
+/// wrapped by `wrap`), through one target.
+pub fn alpha_sweep(
+    run: &Run,
+    target: &Target,
+    alpha: &vcommon::en::Alpha,
+    n: usize,
+    wrap: &(dyn Fn(&[u8], &mut Vec<u8>) + Sync),
+    extra: &(dyn Fn(&Target, &[u8], &Got, &Ref, &mut Sink) + Sync),
+) -> Sink {
+    let depth = 2.min(n);
+    let mut shards: Vec<(bool, Vec<u8>)> = alpha.short(depth).into_iter().map(|s| (true, s)).collect();
+    shards.extend(alpha.shards(depth).into_iter().map(|s| (false, s)));
+    par_run(run.threads, shards.len(), |i, sink| {
+        let (single, ref prefix) = shards[i];
+        let mut buf: Vec<u8> = Vec::with_capacity(64);
+        let mut f = |p: &[u8]| {
+            buf.clear();
+            wrap(p, &mut buf);
+            let (g, r) = check_case(run.prop, target, &buf, sink);
+            extra(target, &buf, &g, &r, sink);
+        };
+        if single {
+            f(prefix);
+        } else {
+            alpha.visit(prefix, n, &mut f);
+        }
+    })
+}
+
+pub fn no_extra(_: &Target, _: &[u8], _: &Got, _: &Ref, _: &mut Sink) {}
+pub fn identity_wrap(p: &[u8], out: &mut Vec<u8>) {
+    out.extend_from_slice(p);
+}
